@@ -30,11 +30,11 @@ Lemma model_uses_emit_table pr st i t o :
   snd (stop_subscription st i) = emit st (msgs (lookup_ev ev_completed (emit_table pr)) i)
   /\ (find_op t (s_ops st) = Some o -> o_kind o = KSub ->
       snd (exec_flush pr st t) = emit st (msgs (lookup_ev ev_data (emit_table pr)) (o_id o))
-      /\ snd (exec_return pr st t RData) = emit st (msgs (lookup_ev ev_data (emit_table pr)) (o_id o))
-      /\ snd (exec_return pr st t RErr) = emit st (msgs (lookup_ev ev_error (emit_table pr)) (o_id o)))
+      /\ snd (exec_return pr st t RData false) = emit st (msgs (lookup_ev ev_data (emit_table pr)) (o_id o))
+      /\ snd (exec_return pr st t RErr false) = emit st (msgs (lookup_ev ev_error (emit_table pr)) (o_id o)))
   /\ (find_op t (s_ops st) = Some o -> o_kind o = KQuery ->
-      snd (exec_return pr st t RData) = emit st (msgs (lookup_ev ev_nonsub_result (emit_table pr)) (o_id o))
-      /\ snd (exec_return pr st t RErr) = emit st (msgs (lookup_ev ev_error (emit_table pr)) (o_id o)))
+      snd (exec_return pr st t RData false) = emit st (msgs (lookup_ev ev_nonsub_result (emit_table pr)) (o_id o))
+      /\ snd (exec_return pr st t RErr false) = emit st (msgs (lookup_ev ev_error (emit_table pr)) (o_id o)))
   /\ (active st i = true ->
       snd (start_operation GWS st i PSub) = emit st (msgs (lookup_ev ev_duplicate (emit_table GWS)) i)).
 Proof.
@@ -74,13 +74,13 @@ Proof.
 Qed.
 
 (* ---------------------------------------------------------------- refutations: one witness per cause and protocol *)
-Definition w_tws_stop_unknown : list input := [CInit INone; CSubscribe 1 PQuery; ERet 0 RData; CComplete 1].
+Definition w_tws_stop_unknown : list input := [CInit INone; CSubscribe 1 PQuery; ERet 0 RData false; CComplete 1].
 Definition w_tws_stop_before_init : list input := [CComplete 1].
-Definition w_tws_emit_after_cancel : list input := [CInit INone; CSubscribe 1 PQuery; CComplete 1; ERet 0 RData].
-Definition w_tws_sub_error : list input := [CInit INone; CSubscribe 1 PSub; ERet 0 RErr; EFlush 0].
-Definition w_gws_stop_unknown : list input := [CStart 1 PQuery; ERet 0 RData; CStop 1].
+Definition w_tws_emit_after_cancel : list input := [CInit INone; CSubscribe 1 PQuery; CComplete 1; ERet 0 RData false].
+Definition w_tws_sub_error : list input := [CInit INone; CSubscribe 1 PSub; ERet 0 RErr false; EFlush 0].
+Definition w_gws_stop_unknown : list input := [CStart 1 PQuery; ERet 0 RData false; CStop 1].
 Definition w_gws_emit_after_cancel : list input := [CStart 1 PSub; CStop 1; EFlush 0].
-Definition w_gws_sub_error : list input := [CStart 1 PSub; ERet 0 RErr; ERet 0 RData].
+Definition w_gws_sub_error : list input := [CStart 1 PSub; ERet 0 RErr false; ERet 0 RData false].
 
 Lemma refuted_witnesses :
   (causes_of TWS w_tws_stop_unknown = [KStopUnknown]
